@@ -817,6 +817,8 @@ class _Run:
                 if nm in ("new",):
                     return a0 if tag(a0) != "int" else sym.intc(int(payload(a0)[0]), U128)
                 if nm == "is_zero":
+                    if tag(a0) == "int":
+                        return sym.boolc(int(payload(a0)[0]) == 0)
                     return sym.op("is_zero", a0)
                 if nm == "u128":
                     return a0
